@@ -168,6 +168,18 @@ struct LcModel {
     bj::array objs, eqs, failed;
     int ns = 0;
     for (int i = 1; i <= NS; ++i) if (i <= g_slots) ++ns;
+    // the comparisons between slots come before the per-slot queries every second observation: dimension() recomputes a
+    // stale dimension bound, operator== must not depend on whether that has happened yet on either side
+    auto compare_slots = [&]() {
+      for (int i = 1; i <= g_slots; ++i) for (int j = i + 1; j <= g_slots; ++j)
+        if (obj[i] && obj[j]) {
+          bool e1 = (*obj[i] == *obj[j]), e2 = (*obj[j] == *obj[i]), ne = (*obj[i] != *obj[j]);
+          if (e1 != e2 || e1 == ne) failed.emplace_back("operator== / != inconsistent");
+          eqs.push_back(bj::object{{"i", i}, {"j", j}, {"eq", e1}});
+        }
+    };
+    const bool eq_first = (nobs_++ % 2 == 1);
+    if (eq_first) compare_slots();
     for (int i = 1; i <= g_slots; ++i) {
       bj::array k;
       if (obj[i]) {
@@ -200,17 +212,13 @@ struct LcModel {
       if (Options::store_filtration) so["filt"] = fl;
       objs.push_back(so);
     }
-    for (int i = 1; i <= g_slots; ++i) for (int j = i + 1; j <= g_slots; ++j)
-      if (obj[i] && obj[j]) {
-        bool e1 = (*obj[i] == *obj[j]), e2 = (*obj[j] == *obj[i]), ne = (*obj[i] != *obj[j]);
-        if (e1 != e2 || e1 == ne) failed.emplace_back("operator== / != inconsistent");
-        eqs.push_back(bj::object{{"i", i}, {"j", j}, {"eq", e1}});
-      }
+    if (!eq_first) compare_slots();
     o["objs"] = objs;
     o["eq_set"] = eqs;
     o["checks_failed"] = failed;
     return o;
   }
+  unsigned nobs_ = 0;
   static int g_slots;
 };
 template <class O> int LcModel<O>::g_slots = 2;
